@@ -83,6 +83,11 @@ type tunBandtss struct {
 	Panic   bool
 	NextID  uint64
 	Calls   int
+	// arguments of the last signing request (what the signed originator is built from)
+	LastTunnelID uint64
+	LastChainID  string
+	LastContract string
+	LastContent  tsstypes.Content
 }
 
 func (b *tunBandtss) GetSigningFee(ctx sdk.Context) (sdk.Coins, error) {
@@ -96,6 +101,7 @@ func (b *tunBandtss) CreateTunnelSigningRequest(ctx sdk.Context, tunnelID uint64
 	destinationContractAddr string, content tsstypes.Content, sender sdk.AccAddress, feeLimit sdk.Coins,
 ) (bandtsstypes.SigningID, error) {
 	b.Calls++
+	b.LastTunnelID, b.LastChainID, b.LastContract, b.LastContent = tunnelID, destinationChainID, destinationContractAddr, content
 	if b.Panic {
 		panic("tss: injected failure")
 	}
